@@ -735,6 +735,11 @@ func (e *Exec) exec(line string) (ans string) {
 		e.caseOut = nil
 	}
 	e.caseOps = append(e.caseOps, line)
+	if op != "reset" && e.w != nil && e.w.Main != nil && e.w.Main.S == nil {
+		// a reopen failed earlier in this history (reported then): there is no node to ask
+		e.caseOut = append(e.caseOut, "node-gone")
+		return "node-gone"
+	}
 	if kv["fault"] == "1" {
 		// injected storage write error: the next write group (either database) fails
 		before := ""
